@@ -1,0 +1,35 @@
+//go:build verif
+
+package pseudonymization
+
+import (
+	"github.com/sirupsen/logrus"
+
+	"github.com/cossacklabs/acra/pseudonymization/common"
+)
+
+// Verification hooks (build tag `verif` only; nothing here is compiled into Acra's binaries).
+// They let the verification harness observe every candidate token the real generator draws
+// (including those rejected by the retry loop) and call the unexported generators directly.
+
+// VerifNewAnonymizer returns the package's real random-value generator.
+func VerifNewAnonymizer() common.Anonymizer { return &anonymizer{} }
+
+// VerifNewPseudoanonymizer builds the real pseudoanonymizer over `storage` with the given value
+// generator (normally a recording wrapper around VerifNewAnonymizer()).
+func VerifNewPseudoanonymizer(storage common.TokenStorage, a common.Anonymizer) common.Pseudoanonymizer {
+	return &pseudoanonymizer{anonymizer: a, storage: storage, dataGenerationLoopLimit: defaultDataGenerationLoopLimit, logger: logrus.NewEntry(logrus.StandardLogger())}
+}
+
+// VerifLoopLimit is the retry bound of generateNewValue.
+const VerifLoopLimit = defaultDataGenerationLoopLimit
+
+// VerifRandomString / VerifRandomEmail expose the unexported generators.
+func VerifRandomString(buf []byte) error { return randomString(buf) }
+func VerifRandomEmail(buf []byte) error  { return randomEmail(buf) }
+
+// VerifCharset and VerifTLDs expose the generator's alphabets.
+func VerifCharset() string { return charset }
+func VerifTLDs() (all, cc []string) {
+	return append([]string{}, allTLDs...), append([]string{}, ccTLDs...)
+}
